@@ -531,6 +531,18 @@ def paux_rules(chk, m, rid):
             if fname == 'glob.glob' and len(args) == 1 and isinstance(args[0], str):
                 need(args[0] in listing, 'Compile.parse lists %r (expected the *.paux files of the working directory and of the paux-dirs)' % args[0])
                 return list(listing[args[0]])
+            import pathlib
+            if fname in ('Path', 'pathlib.Path', 'PurePath', 'pathlib.PurePath') and args and all(isinstance(a, (str, pathlib.PurePosixPath)) for a in args):
+                return pathlib.PurePosixPath(*args)
+            if isinstance(node.func, ast.Attribute) and node.func.attr in ('glob', 'iterdir', 'exists', 'is_dir', 'is_file'):
+                recv = interp.ev(node.func.value, state)
+                if isinstance(recv, pathlib.PurePosixPath):
+                    if node.func.attr == 'glob' and len(args) == 1 and isinstance(args[0], str):
+                        key = str(recv / args[0])
+                        need(key in listing, 'Compile.parse lists %r (expected the *.paux files of the working directory and of the paux-dirs)' % key)
+                        return [pathlib.PurePosixPath(x) for x in listing[key]]
+                    if node.func.attr in ('exists', 'is_dir'):
+                        return True
             if fname.endswith('context.restore'):
                 state.env['__restored'] = state.env.get('__restored', ()) + (tuple(a if isinstance(a, str) else repr(a) for a in args),)
                 return A.NONE
